@@ -22,6 +22,9 @@ pub struct Report {
     pub events: Vec<String>,
     /// generator problems (reference evaluation failed etc.) - never a verdict
     pub skipped: Option<String>,
+    /// when a violation is found inside an enumerating (sweep) operation: the scenario reduced
+    /// to the explicit failing operations (JSON of the scenario), used as the start of minimisation
+    pub pinned: Option<Value>,
 }
 
 impl Report {
